@@ -18,7 +18,7 @@ from irsx import dag, engine, diff as dd
 from irsx.smat import M, vars_, ZERO, ONE
 from . import groups as G_
 from .common import guarded, Results, prove_pairs
-from .lie import Fn, mat_pairs, vec_pairs, tangent_sampler, subst_fn, series_pairs, signvars, rounding_standin
+from .lie import Fn, mat_pairs, vec_pairs, tangent_sampler, subst_fn, series_pairs, signvars, rounding_standin, zero_rotation_clause
 from .c02 import pick_path
 
 PROP = "C04"
@@ -116,6 +116,7 @@ def run_group(gname, s, tier="quick", seed=0, canary=False):
                 continue
             for k, p in enumerate(pt):
                 series_pairs(res, "%s::%s/taylor/p%d" % (tag, nm, k), mat_pairs(Jmat(p), Jmat(pc)), G, (TOL if s == "d" else TOL_F), call=f.call(), pv=p)
+                zero_rotation_clause(res, "%s::%s/at-zero-rotation/p%d" % (tag, nm, k), [x for (_, _, x) in Jmat(p).flat()], G, f.call(), p, ctol=1e-7 if s == "d" else 1e-4)
                 if canary and nm == "dr_exp" and k == 0:
                     series_pairs(res, "%s::dr_exp/taylor-canary" % tag, mat_pairs(Jmat(p), Jmat(pc)), G, Fraction(1, 10 ** 40),
                                  expect_fail=True)
